@@ -60,6 +60,25 @@ def check_zeros(model, prob, r, synth=True):
     return None
 
 
+def canon_seed(canon):
+    import hashlib, json
+    return int(hashlib.sha256(json.dumps({k: v for k, v in canon.items() if k != 'history_mode'}, sort_keys=True, default=str).encode()).hexdigest()[:8], 16)
+
+
+def history_plan(meas, hist, mode, seed):
+    """the measurement list of each of the `hist` estimate calls: growing prefixes (what the mechanisms do), shrinking ones (an earlier, larger
+    model's parameters no longer fit into the later model), or arbitrary subsets"""
+    import random
+    n = len(meas)
+    grow = [meas[: max(0, n - (hist - 1 - h))] for h in range(hist)]
+    if mode == 'grow' or hist == 1:
+        return grow
+    if mode == 'shrink':
+        return grow[::-1]
+    rr = random.Random(seed)
+    return [[m for m in meas if rr.random() < 0.6] for _ in range(hist)]
+
+
 def run(res, drv, tier, seed):
     r = rng(seed, 'C10')
     n = 36 if tier == 'quick' else 300
@@ -78,11 +97,15 @@ def run(res, drv, tier, seed):
         res.case(canon, nt, sample={k: canon[k] for k in ('dom', 'zeros', 'engine', 'warm_start', 'history')} if ci < 3 else None)
         res.count('engine:' + engine)
         res.count('warm' if warm else 'cold')
-        eng = estgen.make_engine(prob['dom'], prob['zeros'], iters=iters, warm_start=warm)
+        mode = r.choice(['grow', 'shrink', 'subsets'])
+        canon['history_mode'] = mode
+        res.count('history:' + mode if hist > 1 else 'history:single')
+        plan = history_plan(prob['meas'], hist, mode, canon_seed(canon))
         bad = None
         try:
+            eng = estgen.make_engine(prob['dom'], prob['zeros'], iters=iters, warm_start=warm)
             for h in range(hist):
-                ms = prob['meas'][: max(0, len(prob['meas']) - (hist - 1 - h))]
+                ms = plan[h]
                 model = estgen.estimate(eng, ms, total, engine)
                 bad = check_zeros(model, prob, r, synth=(h == hist - 1))
                 if bad:
@@ -103,10 +126,15 @@ def replay(res, drv, rp):
     res.case(q)
     prob = {'dom': q['dom'], 'zeros': {tuple(k.split(',')): [tuple(c) for c in v] for k, v in q['zeros'].items()},
             'meas': [{'Q': np.array(m['Q']), 'y': np.array(m['y']), 'noise': m['noise'], 'proj': m['proj']} for m in q['meas']], 'N': 0}
-    eng = estgen.make_engine(prob['dom'], prob['zeros'], iters=q['iters'], warm_start=q['warm_start'])
     r = rng(0, 'r')
+    plan = history_plan(prob['meas'], q['history'], q.get('history_mode', 'grow'), canon_seed(q))
+    try:
+        eng = estgen.make_engine(prob['dom'], prob['zeros'], iters=q['iters'], warm_start=q['warm_start'])
+    except Exception as e:
+        res.violation('failing-input', f'{q["engine"]}: constructing the estimator raises {type(e).__name__}: {str(e)[:120]}', {'request': q}, key=f'zeros:{q["engine"]}')
+        return
     for h in range(q['history']):
-        ms = prob['meas'][: max(0, len(prob['meas']) - (q['history'] - 1 - h))]
+        ms = plan[h]
         model = estgen.estimate(eng, ms, q['total'], q['engine'])
         bad = check_zeros(model, prob, r)
         if bad:
